@@ -27,7 +27,8 @@
    (n = AST node that consumed, idx = original argv index, role = arg | flag |
    name | value | cmd, at = length of the state in which that node was entered,
    drop = the consuming sub-parse ended in a *missing* error that optional / many
-   turned into success, ctx = option names known to an `arg` consumer).
+   turned into success, ctx = option names declared by the scope of an `arg` / `cmd`
+   consumer, see below).
 
    Token conversion Extract(T, tok) is NOT specified here: it is a constant table
    measured by the harness with a plain std::istringstream >> (fcppt documents
@@ -36,14 +37,26 @@
    Tokens are referred to by a 1-based id into Family.tokens (code point
    sequences; TLA+ strings are not indexable).
 
-   The three Bug* constants re-introduce a defect each into the rule set; they
-   are FALSE everywhere except in the vacuity-guard configurations, where TLC
-   must find a violation of the named invariant. *)
+   The Bug* constants re-introduce a defect each into the rule set; they are
+   FALSE / "none" everywhere except in the vacuity-guard configurations, where TLC
+   must find a violation of the named invariant.
+
+   Parse contexts.  A context is a pair [use, ref]: `use` is the set of option
+   names the parsers actually look at (option_names() of the scope's root parser:
+   the parser given to parse, sum(help, parser) for parse_help, the common parser
+   resp. the sub-command parser inside commands) and is subject to BugNames; `ref`
+   is the same set by the documented rule (every composite contributes the union
+   of its parts, commands contributes nothing) and is only recorded in the ghost
+   events, so that OptionValueNotPositional speaks about the names the scope
+   DECLARES, not about the names a defective option_names() happens to return. *)
 EXTENDS Naturals, Sequences, FiniteSets, TLC, Json, IOUtils
 
 CONSTANTS BugNextArgNoSkip,      \* next_arg does not skip the value of a context option
           BugUseFlagAll,         \* use_flag erases every occurrence of the flag
-          BugOptionalOrigState   \* optional continues from its own input state after a missing error
+          BugOptionalOrigState,  \* optional continues from its own input state after a missing error
+          BugNames               \* "none", or which contribution to option_names() is dropped:
+                                 \* "sum_left_only" | "sum_right_only" | "product_left_only" |
+                                 \* "product_right_only" | "optional_none" | "many_none"
 
 Family == JsonDeserialize(IOEnv.PARSERS)
 ExtractTable == JsonDeserialize(IOEnv.EXTRACT)
@@ -95,17 +108,30 @@ MarkDrop(used) == {[u EXCEPT !.drop = TRUE] : u \in used}
 
 -----------------------------------------------------------------------------
 (* static information about a parser *)
-RECURSIVE OptionNames(_), RawNames(_), Labels(_), WellFormed(_), IllKinds(_), FlagLeaves(_), Nodes(_)
+RECURSIVE OptionNames(_), OptionNamesUsed(_), RawNames(_), Labels(_), WellFormed(_), IllKinds(_), FlagLeaves(_), Nodes(_)
 
 ShortSet(p) == {p.short[i] : i \in 1..Len(p.short)}
 SubParsers(p) == {p.subs[i].p : i \in 1..Len(p.subs)}
 
-(* option_names(): what a parse context knows (commands contributes nothing) *)
+(* option_names(): what a parse context knows (commands contributes nothing).
+   OptionNames = the documented rule; OptionNamesUsed = the same with BugNames applied. *)
+LeafOptionNames(p) ==
+  {[name |-> p.long, short |-> FALSE]} \cup {[name |-> s, short |-> TRUE] : s \in ShortSet(p)}
 OptionNames(p) ==
-  CASE p.k = "option" -> {[name |-> p.long, short |-> FALSE]} \cup {[name |-> s, short |-> TRUE] : s \in ShortSet(p)}
+  CASE p.k = "option" -> LeafOptionNames(p)
     [] p.k \in {"optional", "many"} -> OptionNames(p.sub)
     [] p.k \in {"product", "sum"} -> OptionNames(p.l) \cup OptionNames(p.r)
     [] OTHER -> {}
+OptionNamesUsed(p) ==
+  CASE p.k = "option" -> LeafOptionNames(p)
+    [] p.k = "optional" -> IF BugNames = "optional_none" THEN {} ELSE OptionNamesUsed(p.sub)
+    [] p.k = "many" -> IF BugNames = "many_none" THEN {} ELSE OptionNamesUsed(p.sub)
+    [] p.k = "product" -> (IF BugNames = "product_right_only" THEN {} ELSE OptionNamesUsed(p.l))
+                          \cup (IF BugNames = "product_left_only" THEN {} ELSE OptionNamesUsed(p.r))
+    [] p.k = "sum" -> (IF BugNames = "sum_right_only" THEN {} ELSE OptionNamesUsed(p.l))
+                      \cup (IF BugNames = "sum_left_only" THEN {} ELSE OptionNamesUsed(p.r))
+    [] OTHER -> {}
+Context(p) == [use |-> OptionNamesUsed(p), ref |-> OptionNames(p)]
 
 (* product_impl.hpp check_disjoint: flag and option names without their dashes *)
 RawNames(p) ==
@@ -158,7 +184,7 @@ NextArgFrom(st, ctx, k) ==
   IF k > Len(st) THEN 0
   ELSE LET d == DashInfo[st[k].tok] IN
        IF d.dash
-       THEN IF k + 1 <= Len(st) /\ d.nm \in ctx /\ ~BugNextArgNoSkip
+       THEN IF k + 1 <= Len(st) /\ d.nm \in ctx.use /\ ~BugNextArgNoSkip
             THEN NextArgFrom(st, ctx, k + 2)
             ELSE NextArgFrom(st, ctx, k + 1)
        ELSE k
@@ -222,7 +248,7 @@ RunArgument(p, st, ctx) ==
   IF k = 0 THEN Miss(st, {})
   ELSE LET e == Extract(p.ty, st[k].tok) IN
        IF e = <<>> THEN Other
-       ELSE Ok(RemoveAt(st, k), (p.label :> Leaf(e[1])), {U(p, st[k].idx, "arg", Len(st), ctx)})
+       ELSE Ok(RemoveAt(st, k), (p.label :> Leaf(e[1])), {U(p, st[k].idx, "arg", Len(st), ctx.ref)})
 
 RECURSIVE Run(_, _, _), ManyLoop(_, _, _, _, _)
 
@@ -236,7 +262,7 @@ ManyLoop(p, st, ctx, acc, used) ==
     [] OTHER -> r
 
 RunCommands(p, st) ==
-  LET cn == OptionNames(p.common)
+  LET cn == Context(p.common)
       k == NextArg(st, cn)
   IN IF k = 0 THEN Miss(st, {})
      ELSE LET name == Tokens[st[k].tok]
@@ -245,8 +271,8 @@ RunCommands(p, st) ==
              ELSE LET sub == p.subs[MinOf(cands)]
                       c == Run(p.common, SubSeq(st, 1, k - 1), cn)
                   IN IF ~(c.k = "ok" /\ c.st = <<>>) THEN (IF c.k = "diverge" THEN c ELSE Other)
-                     ELSE LET s == Run(sub.p, SubSeq(st, k + 1, Len(st)), OptionNames(sub.p))
-                              mine == c.used \cup {U(p, st[k].idx, "cmd", Len(st), cn)}
+                     ELSE LET s == Run(sub.p, SubSeq(st, k + 1, Len(st)), Context(sub.p))
+                              mine == c.used \cup {U(p, st[k].idx, "cmd", Len(st), cn.ref)}
                           IN CASE s.k = "ok" ->
                                     Ok(s.st, ("options_label" :> c.val) @@ ("sub_command_label" :> (sub.tag :> s.val)),
                                        mine \cup s.used)
@@ -299,16 +325,17 @@ Top(r) ==
     [] r.k = "diverge" -> [ok |-> FALSE, help |-> FALSE, diverge |-> TRUE]
     [] OTHER -> [ok |-> FALSE, help |-> FALSE, diverge |-> FALSE]
 
-Parse(p, argv) == Top(Run(p, InitState(argv), OptionNames(p)))
+Parse(p, argv) == Top(Run(p, InitState(argv), Context(p)))
 
-(* parse_help.hpp with default_help_switch(): parse of sum(unit_switch("--help"), p); a left
-   result is the usage text (its wording is not specified here) *)
+(* parse_help.hpp with default_help_switch(): parse of sum(unit_switch("--help"), p) in the
+   context of that SUM (combined_parser.option_names()); a left result is the usage text (its
+   wording is not specified here) *)
 HelpName == <<104, 101, 108, 112>>
 HelpSum(p) == [k |-> "sum", n |-> 0, label |-> "help_sum",
                l |-> [k |-> "unit_switch", n |-> 0, label |-> "help_label", short |-> <<>>, long |-> HelpName],
                r |-> p]
 ParseHelp(p, argv) ==
-  LET t == Top(Run(HelpSum(p), InitState(argv), OptionNames(p))) IN
+  LET t == Top(Run(HelpSum(p), InitState(argv), Context(HelpSum(p)))) IN
   IF ~t.ok THEN t
   ELSE IF "left" \in DOMAIN t.val["help_sum"]
        THEN [ok |-> TRUE, help |-> TRUE, used |-> t.used]
@@ -337,7 +364,7 @@ ConsumedExactlyOnceIn(t, argv) ==
 
 (* An option's value is never taken as a positional argument: no argument (or command name)
    consumer took the token that directly follows, in argv, a token consumed as the NAME of an
-   option the consumer's parse context knows. *)
+   option that the consumer's scope declares (ctx.ref above). *)
 NameOfTok(argv, i) == DashInfo[argv[i]].nm
 OptionValueNotPositionalIn(t, argv) ==
   t.ok =>
@@ -349,12 +376,12 @@ OptionValueNotPositionalIn(t, argv) ==
    purpose when both its short and its long name are given. *)
 FlagNeverFailsIn(p, argv) ==
   \A f \in FlagLeaves(p) :
-    LET r == Run(f, InitState(argv), {})
+    LET r == Run(f, InitState(argv), [use |-> {}, ref |-> {}])
         toks == {Tokens[argv[i]] : i \in 1..Len(argv)}
     IN r.k = "ok" \/ (f.short # <<>> /\ FlagTok(f.long, FALSE) \in toks /\ FlagTok(f.short[1], TRUE) \in toks)
 
 (* Stronger readings, evaluated for information only (see docs/notes_C03.md). *)
-FlagNeverFailsStrictIn(p, argv) == \A f \in FlagLeaves(p) : Run(f, InitState(argv), {}).k = "ok"
+FlagNeverFailsStrictIn(p, argv) == \A f \in FlagLeaves(p) : Run(f, InitState(argv), [use |-> {}, ref |-> {}]).k = "ok"
 NothingDroppedIn(t) == t.ok => \A u \in t.used : ~u.drop
 OptionValueNotPositionalAnyContextIn(t, argv) ==
   t.ok => \A a \in t.used : a.role \in {"arg", "cmd"} =>
